@@ -292,5 +292,7 @@ SWEEP = ["concurrent/test_garbage_collector.cpp"]
 
 # name anchors (validated by tools/rename_sweep.py; a vanished name is exit 2, see core.check_anchor_names)
 ANCHORS = {
+    'keep_reclaim': ['^babylon::GarbageCollector(<|$)'],
     'lowest_epoch': ['^babylon::GarbageCollector(<|$)'],
+    'reclaim_start_from': ['^babylon::GarbageCollector(<|$)'],
 }
